@@ -251,6 +251,7 @@ func (c *lru) Update(key, cmd string, value RedisMessage) (pxat int64) {
 			}
 		}
 	}
+	verifPoint("lru.update.end", c)
 	c.mu.Unlock()
 	if ch != nil {
 		close(ch)
